@@ -331,30 +331,36 @@ impl RtpsWriterProxy {
                     })
                     .peekable();
 
-                let base = *missing_fragments_iter
-                    .peek()
-                    .expect("At least a fragment must be missing");
-                // A FragmentNumberSet spans at most 256 numbers; the rest is requested in the next round
-                let fragment_number_state = FragmentNumberSet::new(
-                    base,
-                    missing_fragments_iter.take_while(|frag_num| frag_num - base < 256),
-                );
-                let nack_frag_submessage = NackFragSubmessage::new(
-                    reader_guid.entity_id(),
-                    self.remote_writer_guid().entity_id(),
-                    missing_change_fragments_seq_num,
-                    fragment_number_state,
-                    self.nack_frag_count,
-                );
+                // The fragments received need not add up to the announced sample size even when
+                // no fragment number is missing: then there is nothing to ask for
+                let nack_frag_submessage = missing_fragments_iter.peek().copied().map(|base| {
+                    NackFragSubmessage::new(
+                        reader_guid.entity_id(),
+                        self.remote_writer_guid().entity_id(),
+                        missing_change_fragments_seq_num,
+                        // A FragmentNumberSet spans at most 256 numbers; the rest is requested in the next round
+                        FragmentNumberSet::new(
+                            base,
+                            missing_fragments_iter.take_while(|frag_num| frag_num - base < 256),
+                        ),
+                        self.nack_frag_count,
+                    )
+                });
 
-                RtpsMessageWrite::from_submessages(
-                    &[
-                        &info_dst_submessage,
-                        &acknack_submessage,
-                        &nack_frag_submessage,
-                    ],
-                    reader_guid.prefix(),
-                )
+                match &nack_frag_submessage {
+                    Some(nack_frag_submessage) => RtpsMessageWrite::from_submessages(
+                        &[
+                            &info_dst_submessage,
+                            &acknack_submessage,
+                            nack_frag_submessage,
+                        ],
+                        reader_guid.prefix(),
+                    ),
+                    None => RtpsMessageWrite::from_submessages(
+                        &[&info_dst_submessage, &acknack_submessage],
+                        reader_guid.prefix(),
+                    ),
+                }
             } else {
                 RtpsMessageWrite::from_submessages(
                     &[&info_dst_submessage, &acknack_submessage],
